@@ -29,7 +29,7 @@ CLAIMED.update({
 CLAIMED.update({
     "C02": ("model_checking",
             "stateless exploration of environment answers: the harness plays the user function, enumerates every answer sequence over a 7-letter alphabet at the first 6 (quick) / 7-8 (thorough) queries with prefix-replaying DFS, oracle = certificate over all continuous completions; plus complete family products and one-request-per-child diagnostics",
-            "An execution of Find_Root is determined by the answers it receives; every finite set of (abscissa, value) pairs is consistent with a continuous function, so enumerating all answer sequences is enumerating all continuous functions up to the depth bound. On every execution: all abscissae and the result lie in the bracket, (a,b) and (b,a) give identical queries and bits, and the recorded answers contain a zero or an adjacent opposite-sign pair within the accuracy of the result (equivalent to: every continuous function consistent with what was seen changes sign within the accuracy). Violations are materialised as a piecewise-linear function and replayed as a plain call. Concrete families (power laws over 13 decades, saturating CDF-like functions, inflection, multiple roots, linear) are enumerated completely over brackets x 9 accuracies x both orders.",
+            "An execution of Find_Root is determined by the answers it receives; every finite set of (abscissa, value) pairs is consistent with a continuous function, so enumerating all answer sequences is enumerating all continuous functions up to the depth bound. On every execution: all abscissae and the result lie in the bracket, (a,b) and (b,a) give identical queries and bits, and the recorded answers contain a zero or an adjacent opposite-sign pair within the accuracy of the result (equivalent to: every continuous function consistent with what was seen changes sign within the accuracy). Violations are materialised as a piecewise-linear function and replayed as a plain call. Concrete families (power laws over 13 decades, saturating CDF-like functions, inflection, multiple roots, linear) are enumerated completely over brackets x 9 accuracies x both orders. Power laws also on brackets [1e-k,1e+k] up to 600 decades; a second answer alphabet {-1,-1e-200,0,1e-200,1}; NaN at one end together with a zero at the other must terminate.",
             "Deviations are confined to the first D queries (later queries are answered by the piecewise-linear interpolant of earlier answers); answer alphabet {0, +-1e-6, +-1, +-1e6}; 'within accuracy' allows 4 ulp of the abscissa.",
             "§3 C02"),
 })
@@ -37,12 +37,12 @@ CLAIMED.update({
 CLAIMED.update({
     "C03": ("model_checking",
             "complete products (4096 quintic coefficient vectors x intervals x epsilon x depth; estimator-regular families admitted by a closed-form filter) plus deviation-bounded stateless DFS in which the harness answers the integrand, compared on every execution with a textbook adaptive-Simpson recursion on the same answers",
-            "Exactness on quintics is decided on every member of a 4^6 coefficient product on 9 intervals (both orientations, width 1e-6..1e3, equal limits) x 5 epsilons x 5-7 depths against a binary128 antiderivative; the 4*epsilon error clause on every admitted member of the exp/cosh/inverse-power/power families; the structural clauses (swap = bitwise negation, epsilon sign, abscissae inside the closed interval, at most 2^(depth+2)+1 evaluations) on all of those and on every execution in which the harness itself answers the integrand with all placements of <=3 (quick) / <=4 (thorough) non-zero answers among the first 17/33 queries.",
+            "Exactness on quintics is decided on every member of a 4^6 coefficient product on 9 intervals (both orientations, width 1e-6..1e3, equal limits) x 5 epsilons x 5-7 depths against a binary128 antiderivative; the 4*epsilon error clause on every admitted member of the exp/cosh/inverse-power/power families; the structural clauses (swap = bitwise negation, epsilon sign, abscissae inside the closed interval, at most 2^(depth+2)+1 evaluations) on all of those and on every execution in which the harness itself answers the integrand with all placements of <=3 (quick) / <=4 (thorough) non-zero answers among the first 17/33 queries. Special structures: polynomials vanishing on every subset of the first five Simpson abscissae, integrands that re-enter Integrate with other settings (compared with the same values from a table), refinement to the depth bound at one place on narrow intervals at non-dyadic offsets.",
             "Error clause skipped (and counted) where the recursion bottoms out; deviations limited to the stated window and alphabet {+-1, +-1e6, 1e-9}; default answer 0.",
             "§3 C03"),
     "C11": ("model_checking",
             "stateless exploration of environment answers: the harness plays the objective for Find_Minimum/Find_Maximum and Minimization::minimize (every answer sequence over 6 letters at the first 7 (quick) / 8 (thorough) evaluations, then a convex default bowl); complete products of unimodal 1D objectives and quadratic bowls d<=6",
-            "'Never worse than the start' and the consistency of the reported state (fmin, y, best-first simplex, nfunc) are statements about every objective; an execution is determined by the objective values it sees, so all answer sequences up to the depth bound are enumerated on the real code and the clauses are checked on each (Find_Maximum(-f) must issue identical queries and return identical bits). Convergence is decided on complete products objective x start x tolerance (1D) and dimension x condition x rotation x offset x scale x ftol (bowls), with the three overloads compared bitwise.",
+            "'Never worse than the start' and the consistency of the reported state (fmin, y, best-first simplex, nfunc) are statements about every objective; an execution is determined by the objective values it sees, so all answer sequences up to the depth bound are enumerated on the real code and the clauses are checked on each (Find_Maximum(-f) must issue identical queries and return identical bits). Convergence is decided on complete products objective x start x tolerance (1D) and dimension x condition x rotation x offset x scale x ftol (bowls), with the three overloads compared bitwise. Unequal, non-palindromic deltas: the first d+1 evaluations are the documented simplex and the result equals that of the simplex overload; a second minimize() on the same object equals a fresh object (value, fmin, nfunc).",
             "An execution that ends in the library's iteration-cap exit under an adversarial objective is permitted and counted (link-time interposition of exit()); on unimodal objectives and convex bowls it is a violation. Bowl distance bound sqrt(20*ftol*(|f*|+1e-10)/lambda_min) as fixed in DESIGN.md; eight bowl inputs that exceed it are recorded in KNOWN_FINDINGS.txt.",
             "§3 C11"),
 })
@@ -50,7 +50,7 @@ CLAIMED.update({
 CLAIMED.update({
     "C04": ("exploration",
             "bounded-exhaustive enumeration of all shape triples (m,n,k)<=5 (quick) / <=8 (thorough) x all ordered pairs of 7 fill patterns with exact (dyadic) arithmetic so every oracle is an equality; every ordered pair of shapes for the element-wise operators in child processes under ASan/UBSan",
-            "Every operator spelling (member functions, operators, compound assignment, free operators) is compared entry by entry with its definition on operands whose sums and products are exact in binary64, for every shape triple up to the bound including all non-square ones; transpose/identity/involution laws, matrix-vector/vector-matrix/outer/dot/cross against products of row and column matrices, Trace, Norm, predicates with every single-entry perturbation, Sub_Matrix/Delete/Return for every index, block constructor for every 2x2 arrangement with block dimensions 0..3. For every ordered pair of shapes the element-wise operations must return iff the shapes are equal, else exit with a diagnostic and no sanitizer report.",
+            "Every operator spelling (member functions, operators, compound assignment, free operators) is compared entry by entry with its definition on operands whose sums and products are exact in binary64, for every shape triple up to the bound including all non-square ones; transpose/identity/involution laws, matrix-vector/vector-matrix/outer/dot/cross against products of row and column matrices, Trace, Norm, predicates with every single-entry perturbation, Sub_Matrix/Delete/Return for every index, block constructor for every 2x2 arrangement with block dimensions 0..3. For every ordered pair of shapes the element-wise operations must return iff the shapes are equal, else exit with a diagnostic and no sanitizer report. Object histories: all sequences (depth 3, thorough 4 for Vector) of 13 Vector / 14 Matrix letters (queries and in-place mutations); after every step all observations of the used object equal those of a fresh object with the same visible contents. Two of the nine fill patterns live at the scales 2^-80 and 2^80.",
             "Entries come from 7 deterministic patterns over half-integers and powers of two (not arbitrary reals): rounding behaviour of inexact sums is outside this check; scalar multiplication and division are also run with the scalars 3, -7, 0.1 and 1.5, where each entry is one correctly rounded binary64 operation.",
             "§3 C04"),
 })
@@ -58,7 +58,7 @@ CLAIMED.update({
 CLAIMED.update({
     "C05": ("exploration",
             "bounded-exhaustive enumeration of integer matrices (all 2x2 over {-2..2}, all 3x3 over {-1,0,1} quick / {-1,0,1,2} thorough, all signed permutation matrices n<=5 / n<=7, P*L*U with every permutation) and structured families, against an exact Bareiss determinant (__int128) and a binary128 complete-pivoting inverse",
-            "Determinant must equal the exact integer determinant bit for bit on every enumerated integer matrix (transpose invariance, row-swap sign, multiplicativity, triangular product checked directly), Invertible must agree with it, Inverse must return for every invertible matrix whatever the position of its zero or tiny entries and agree with the exact inverse within 16*n*kappa*u (X*M and M*X against I with the stated powers of kappa), and must end the process for every singular or non-square one. Complete products make 'whatever the position of the zeros' a statement about all positions rather than one sample.",
+            "Determinant must equal the exact integer determinant bit for bit on every enumerated integer matrix (transpose invariance, row-swap sign, multiplicativity, triangular product checked directly), Invertible must agree with it, Inverse must return for every invertible matrix whatever the position of its zero or tiny entries and agree with the exact inverse within 16*n*kappa*u (X*M and M*X against I with the stated powers of kappa), and must end the process for every singular or non-square one. Complete products make 'whatever the position of the zeros' a statement about all positions rather than one sample. Object histories (Determinant/Invertible/Inverse, then +=, -=, element or row writes, assignment, then the queries again) must answer like a fresh matrix with the same entries; singular integer matrices include non-trivial row/column combinations up to n=7; orthogonal matrices are perturbed by 1e-13..1e-6.",
             "Sizes above 3 are covered by structured families (permutations, PLU, tiny pivots in every diagonal position, triangular/diagonal/symmetric, rank-deficient, graded scalings to kappa 1e8), not by complete products. Rejection is observed through interposed exit(); the diagnostic text is checked in C10.",
             "§3 C05"),
     "C15": ("exploration",
@@ -71,7 +71,7 @@ CLAIMED.update({
 CLAIMED.update({
     "C16": ("exploration",
             "bounded-exhaustive enumeration: complete product of 101 angles x 98 axes x 3 axis lengths for the rotations, and r x 25 polar x 24 azimuthal angles x the same axes for the spherical coordinates, each case compared with long-double geometry",
-            "Every enumerated Rotation_Matrix is checked for R^T R = I, det = 1, R n = n, R v = cos(a) v + sin(a) n x v for v perpendicular to n, and R(a)R(b) = R(a+b), within 16u; every Spherical_Coordinates result for norm r, v.n = r cos(theta) within 16u r and right-handed progression in phi; axis +z and the plain overload bitwise against the closed form. The axis list contains both poles and directions 1e-12, 1e-8, 1e-4 away from them, which is where a division by sqrt(1-n_z^2) breaks.",
+            "Every enumerated Rotation_Matrix is checked for R^T R = I, det = 1, R n = n, R v = cos(a) v + sin(a) n x v for v perpendicular to n, and R(a)R(b) = R(a+b), within 16u; every Spherical_Coordinates result for norm r, v.n = r cos(theta) within 16u r and right-handed progression in phi; axis +z and the plain overload bitwise against the closed form. The axis list contains both poles and directions 1e-12, 1e-8, 1e-4 away from them, which is where a division by sqrt(1-n_z^2) breaks. Angles include 1e-12..1e-2 around every multiple of pi/2; v(phi) is compared with r(cos(theta) n + sin(theta)(cos(phi) e1 + sin(phi) e2)) (frame from v(0)) on the ring and on azimuths 1e-9..1e-3 next to the multiples of pi/2; every ordered pair of axes is requested back to back and must not influence each other; Angle for every pair of the axis alphabet including parallel and antiparallel pairs.",
             "Angles and axes are the stated finite lists (all multiples of pi/12 in [-4pi,4pi] plus four irrational angles; coordinate, diagonal, (1,2,3)-permutation and near-pole axes with lengths 1e-6, 1, 1e6).",
             "§3 C16"),
 })
@@ -87,7 +87,7 @@ CLAIMED.update({
 CLAIMED.update({
     "C06": ("model_checking",
             "explicit-state BFS to fixpoint over the global factorial memo (state = memo contents, every Factorial/Binomial_Coefficient letter applied in every reachable state, oracle = fresh memo) plus complete grids against two mutually checking long-double references (positive series and Lentz continued fraction)",
-            "The memo makes Factorial/Binomial_Coefficient a function of the call history; all 171 reachable memo states are visited and all 315 letters executed in each, so 'every call order' is decided, not sampled. Binomial_Coefficient is checked for all 0<=k<=n<=400 (Pascal, symmetry, exact integer where the rounding bound allows), GammaLn/Gamma on 2001 points within 16u in the logarithm, P and Q on an (a,x) grid dense around x=a+1 and a=100 (range, P+Q=1, monotone in x, 1e-12 / 1e-3 against the reference, Upper+Lower=Gamma), and the inverses on 60 probabilities for every a of the grid.",
+            "The memo makes Factorial/Binomial_Coefficient a function of the call history; all 171 reachable memo states are visited and all 315 letters executed in each, so 'every call order' is decided, not sampled. Binomial_Coefficient is checked for all 0<=k<=n<=400 (Pascal, symmetry, exact integer where the rounding bound allows), GammaLn/Gamma on 2001 points within 16u in the logarithm, P and Q on an (a,x) grid dense around x=a+1 and a=100 (range, P+Q=1, monotone in x, 1e-12 / 1e-3 against the reference, Upper+Lower=Gamma), and the inverses on 60 probabilities for every a of the grid. GammaLn/Gamma on 4443 points from 1e-300 to 1e300.",
             "Grid, not continuum: a on 47 (quick) / 407 (thorough) values of (1e-3,1e4], x on 200 / 2000 points per a plus the switch-over neighbourhoods. Inverse cases whose solution lies below the normal double range (tiny a, small p) are excluded and counted. The two reference methods must agree (count of unresolved points is reported and is 0).",
             "§3 C06"),
 })
@@ -103,7 +103,7 @@ CLAIMED.update({
 CLAIMED.update({
     "C17": ("exploration",
             "bounded-exhaustive enumeration: Round on every d-digit mantissa x every decimal exponent (d<=3 all of -299..299; d=4 all exponents in thorough; d=5..7 at three exponents) each with its nextafter neighbours and the half-way point +-1 ulp; Dawson/Erfi/Inv_Erf on complete grids against long-double quadrature / Newton references; all pairs of a 12-value alphabet for the comparison helpers; all (l,m) with l<=12 x 144 directions for the harmonics",
-            "Oddness and idempotence of Round are demanded bit for bit, monotonicity along the sorted enumeration and the half-unit bound on 2.3e7 (quick) / 5.8e8 (thorough) arguments that sit exactly at and next to every representable decimal boundary - the places two hand-picked numbers never reach. Dawson within 2e-7 absolutely, Erfi within 1e-6 relatively, Inv_Erf within 1e-4 of a long-double inverse up to 1-1e-12; Sign/StepFunction/Relative_Difference/Floats_Equal consistent, reflexive and symmetric on all pairs including signed zeros and subnormals; Y_{l,-m} conjugation symmetry, vector Y = radial unit vector times Y_lm, Psi tangential and equal to theta^ dY/dtheta + phi^ (im/sin theta) Y with the derivative from the ladder relation, for every (l,m).",
+            "Oddness and idempotence of Round are demanded bit for bit, monotonicity along the sorted enumeration and the half-unit bound on 2.3e7 (quick) / 5.8e8 (thorough) arguments that sit exactly at and next to every representable decimal boundary - the places two hand-picked numbers never reach. Dawson within 2e-7 absolutely, Erfi within 1e-6 relatively, Inv_Erf within 1e-4 of a long-double inverse up to 1-1e-12; Sign/StepFunction/Relative_Difference/Floats_Equal consistent, reflexive and symmetric on all pairs including signed zeros and subnormals; Y_{l,-m} conjugation symmetry, vector Y = radial unit vector times Y_lm, Psi tangential and equal to theta^ dY/dtheta + phi^ (im/sin theta) Y with the derivative from the ladder relation, for every (l,m). Inv_Erf: oddness up to the last doubles below one and at the ends +-1 (saturation values); accuracy 1e-4 on the stated range |p| <= 1-1e-12.",
             "Grids, not the continuum, for Dawson/Erfi/Inv_Erf (|x|<=30 in steps of 1/64 plus both sides of |x|=0.2). The Psi identity is checked for sin(theta) > 1e-7 with a tolerance growing like 1/sin(theta); at the poles only tangentiality is checked.",
             "§3 C17"),
 })
@@ -111,20 +111,20 @@ CLAIMED.update({
 CLAIMED.update({
     "C12": ("exploration",
             "bounded-exhaustive enumeration of all orders n=1..128 (quick) / 1..512 plus eight orders up to 4000 (thorough) x 7 intervals (shifted, far from the origin, reversed), each rule checked against its reference-free definition and against a long-double Newton reference",
-            "Order-dependent errors (odd n, large n, the mirror assignment, the middle node written twice, shifted or reversed intervals) are invisible to the single even order the tests use; here every order is built and checked for strictly monotone nodes strictly inside the interval, node and weight symmetry (weights bit for bit), weight sign, sum of weights, exact integration of every Legendre polynomial and monomial of degree k<=min(2n-1,60), agreement of nodes (few ulp) and weights (L1 norm) with an independent long-double rule, identical bits from the three Integrate_Gauss_Legendre overloads and rejection of mismatched lengths.",
+            "Order-dependent errors (odd n, large n, the mirror assignment, the middle node written twice, shifted or reversed intervals) are invisible to the single even order the tests use; here every order is built and checked for strictly monotone nodes strictly inside the interval, node and weight symmetry (weights bit for bit), weight sign, sum of weights, exact integration of every Legendre polynomial and monomial of degree k<=min(2n-1,60), agreement of nodes (few ulp) and weights (L1 norm) with an independent long-double rule, identical bits from the three Integrate_Gauss_Legendre overloads and rejection of mismatched lengths. Intervals include widths below 1e-16 at the origin; all ordered pairs of orders up to 32 (thorough 64) are requested back to back through both entry points and must give identical bits.",
             "Exactness is checked directly only up to degree 60 (conditioning); above that it follows from agreement with the reference rule. Tolerances are O(n)u (rounding of the three-term recurrence), not fitted.",
             "§3 C12"),
     "C13": ("exploration",
             "bounded-exhaustive enumeration over configurations: 6 method names x 19 smooth integrands x 4 intervals x {default, explicit} method_parameter in both orientations and with equal limits; Integrate_2D/3D for every method x every orientation of every axis with different factors and disjoint ranges per axis; spherical overload on angular sub-ranges",
-            "The repository's multi-dimensional tests use integrands symmetric under exchange of variables on identical limits, so a swapped argument or limit cannot show; here every axis has its own range and its own factor, every argument handed to the integrand is recorded and must lie in the range of its own pair of limits, and the result must be the signed product of the 1D integrals. 1D: every method within its stated accuracy relative to kappa = int|f|/|int f|, reversed limits the bitwise negation, equal limits exactly 0, abscissae inside the interval. Spherical overload: norm in the shell, z/r in the cos(theta) range, azimuth in the phi range, result = solid angle x radial integral.",
+            "The repository's multi-dimensional tests use integrands symmetric under exchange of variables on identical limits, so a swapped argument or limit cannot show; here every axis has its own range and its own factor, every argument handed to the integrand is recorded and must lie in the range of its own pair of limits, and the result must be the signed product of the 1D integrals. 1D: every method within its stated accuracy relative to kappa = int|f|/|int f|, reversed limits the bitwise negation, equal limits exactly 0, abscissae inside the interval. Spherical overload: norm in the shell, z/r in the cos(theta) range, azimuth in the phi range, result = solid angle x radial integral. Intervals narrower than 1e-12 ([1,1+2^-41], [0,1e-13], [-3e-14,2e-14]) against a 24-point long-double rule; call histories: all sequences (depth 3, thorough 4) of 14 request letters (every method, explicit node counts, 2D/3D nested requests) give identical bits per letter, explicit Gauss-Legendre_2 node counts equal the textbook n-point rule.",
             "Integrand families are finite lists (damped cosines up to two periods, Lorentzian, 1/(x+s), Gaussians); 3D Trapezoidal uses factors linear in y and z (the boost rule would otherwise need 7e10 evaluations). One integrand on which the trapezoidal rule misses 1e-6 by 6 % is recorded in KNOWN_FINDINGS.txt.",
             "§3 C13"),
 })
 
 CLAIMED.update({
     "C19": ("exploration",
-            "complete enumeration of the finite parts: all (workers,tasks) in [1,32]x[0,256] (quick) / [1,128]x[0,1024] (thorough), all integer (min,max) in [-40,40]^2 x step 1..40, all step counts 0..200 / 0..2000 on a (min,max) alphabet, all non-decreasing lists over {0,1,2,3} of length <=6 with every element/midpoint/+-ulp/outside target, all lists of length 0..4 over 3-letter alphabets of int, double and std::string with every Sub_List index pair (also under ASan), all permutations of dyadic data sets n<=6",
-            "Each helper is compared with its element-wise definition on every member of the stated finite space: shares of Workload_Distribution differ by at most one and span 0..tasks; Range is the half-open range in the stated direction; Linear_Space/Log_Space have the requested count, start at min, end at max within rounding, are strictly monotone and equally spaced (in the logarithm); Locate_Closest_Location returns an index of a nearest element including ties; the list templates agree with ==, concatenation, transposition and the clamped inclusive Sub_List definition; mean/median/variance/standard deviation/weighted average obey permutation, translation (by 16 and by 2^20..2^40, with the (u*shift)^2 bound of a two-pass scheme) and power-of-two scaling laws on dyadic data and reduce to each other; unequal weights against an independent Cochran reference.",
+            "complete enumeration of the finite parts: all (workers,tasks) in [1,32]x[0,256] (quick) / [1,128]x[0,1024] (thorough), all integer (min,max) in [-40,40]^2 x step 1..40, all step counts 0..200 / 0..2000 on a (min,max) alphabet, all non-decreasing lists over {0,1,2,3} of length <=6 with every element/midpoint/+-ulp/outside target, all lists of length 0..4 over 3-letter alphabets of int, double and std::string with every Sub_List index pair including INT_MIN..INT_MAX and UINT_MAX (also under ASan), all permutations of dyadic data sets n<=6",
+            "Each helper is compared with its element-wise definition on every member of the stated finite space: shares of Workload_Distribution differ by at most one and span 0..tasks; Range is the half-open range in the stated direction; Linear_Space/Log_Space have the requested count, start at min, end at max within rounding, are strictly monotone and equally spaced (in the logarithm); Locate_Closest_Location returns an index of a nearest element including ties; the list templates agree with ==, concatenation, transposition and the clamped inclusive Sub_List definition; mean/median/variance/standard deviation/weighted average obey permutation, translation (by 16 and by 2^20..2^40, with the (u*shift)^2 bound of a two-pass scheme) and power-of-two scaling laws (factors 2^-200..2^300, also for the standard deviation and the standard error) on dyadic data and reduce to each other; unequal weights against an independent Cochran reference.",
             "Value alphabets are small and fixed; random long lists of the property's quantifier are replaced by pattern lists up to length 200.",
             "§3 C19"),
 })
@@ -132,7 +132,7 @@ CLAIMED.update({
 CLAIMED.update({
     "C14": ("model_checking",
             "exhaustive exploration of call histories with owned entropy: std::random_device::_M_getval() is interposed so every seed is a letter; every history of prior integrations up to depth 2 (quick) / 3 (thorough) over a 10-letter alphabet is run in a child process forked from a pristine parent, and each of 12 observed calls x seeds in its own grandchild; oracle = value bits and the hash of the complete argument stream of the same call in a fresh process",
-            "The integrators keep grids, counters and work arrays in function-local statics, so whether a call is affected by earlier ones is a property of the call sequence; all sequences up to the bound are executed (110 / 1110 histories, 2640 / 79920 observed calls) and compared bitwise with a fresh process, including an integrand that reads the whole vector it is handed and a needle integrand that drives Miser into its fall-back branch. In addition every method x dimension 1..6 x 4 regions (offset, anisotropic, width 1e-3, width 1e3) x budgets x 4 families x seeds runs in its own process: every argument vector has the right size and lies inside the hyper-rectangle, constants are integrated to rounding, smooth families within six plain-Monte-Carlo standard errors of the closed form; the 2D/3D front ends pass each coordinate within its own axis' range.",
+            "The integrators keep grids, counters and work arrays in function-local statics, so whether a call is affected by earlier ones is a property of the call sequence; all sequences up to the bound are executed (110 / 1110 histories, 2640 / 79920 observed calls) and compared bitwise with a fresh process, including an integrand that reads the whole vector it is handed and a needle integrand that drives Miser into its fall-back branch. In addition every method x dimension 1..6 x 4 regions (offset, anisotropic, width 1e-3, width 1e3) x budgets x 4 families x seeds runs in its own process: every argument vector has the right size and lies inside the hyper-rectangle, constants are integrated to rounding, smooth families within six plain-Monte-Carlo standard errors of the closed form; the 2D/3D front ends pass each coordinate within its own axis' range. Families include sharply peaked off-centre Gaussians (width 0.07 and 0.1 of the side).",
             "History alphabet and depth are finite; seeds are the values returned by the interposed entropy source (1,2 quick; 1..6 thorough). Three (method, dimension, region) inputs where Vegas misses a constant because of its absolute TINY threshold are recorded in KNOWN_FINDINGS.txt.",
             "§3 C14"),
 })
@@ -140,7 +140,7 @@ CLAIMED.update({
 CLAIMED.update({
     "C18": ("model_checking",
             "the caller's generator is the environment: a real std::mt19937 is scripted (state loaded through operator>> with inverted tempering) so the uniforms each sampler sees are enumerated on complete grids; explicit enumeration of all interleavings of 10 sampler letters up to depth 3 (quick) / 4 (thorough) from two seeds, every transition compared with the same call made first in a pristine process that loads the serialised generator state",
-            "Reproducibility and purity are statements about every generator state and every sequence of sampler calls: all sequences up to the bound are executed and each further call must produce the same output and leave the same generator state as in a pristine process started from the serialised state (so no sampler keeps hidden state or consults another entropy source: random_device, rand, random and getrandom are interposed and must stay at zero). The laws are decided exactly instead of statistically: Sample_Uniform is affine in the scripted uniform bit for bit, Sample_Gauss hits the normal quantile within the Kolmogorov distance implied by Inv_Erf's 1e-4, inverse-transform samples satisfy cdf(x)=u, rejection sampling returns the first pair under the density on a full grid of first trials, Sample_Poisson follows Knuth's product rule on every uniform sequence over a 12-letter grid (15 letters for means below 0.1: mean/2, 1-mean/2, 1-mean/4 added) up to length 5/6 (and on two-level sequences for means 600..5000); targets with bounded support, plateaus and zero-density regions in every sampler from 8/32 seeds: twice from equal states (identical output and final state), no foreign entropy, inside the domain, never leaving the support once reached, the Metropolis kernel is compared rule by rule on a grid of (start, proposal, acceptance) uniforms, and all (sample, thinning, burn_in) triples of the stated grid return exactly `sample` states of the reference chain at iterations >= burn_in spaced by thinning.",
+            "Reproducibility and purity are statements about every generator state and every sequence of sampler calls: all sequences up to the bound are executed and each further call must produce the same output and leave the same generator state as in a pristine process started from the serialised state (so no sampler keeps hidden state or consults another entropy source: random_device, rand, random and getrandom are interposed and must stay at zero). The laws are decided exactly instead of statistically: Sample_Uniform is affine in the scripted uniform bit for bit, Sample_Gauss hits the normal quantile within the Kolmogorov distance implied by Inv_Erf's 1e-4, inverse-transform samples satisfy cdf(x)=u, rejection sampling returns the first pair under the density on a full grid of first trials, Sample_Poisson follows Knuth's product rule on every uniform sequence over a 12-letter grid (15 letters for means below 0.1: mean/2, 1-mean/2, 1-mean/4 added) up to length 5/6 (and on two-level sequences for means 600..5000); targets with bounded support, plateaus and zero-density regions in every sampler from 8/32 seeds: twice from equal states (identical output and final state), no foreign entropy, inside the domain, never leaving the support once reached ; Gaussian tails on scripted uniforms down to 2^-53 and 0 (judged in z), inverse-transform sampling of non-linear CDFs on domains of width 2e-10, 3e-9 and 9e-14, the Metropolis kernel is compared rule by rule on a grid of (start, proposal, acceptance) uniforms, and all (sample, thinning, burn_in) triples of the stated grid return exactly `sample` states of the reference chain at iterations >= burn_in spaced by thinning.",
             "Scripted grids are finite (stratified u=(i+1/2)/m); a supplementary Kolmogorov-Smirnov test at 1e-9 on real streams (8 seeds) is included but is not what decides the property. Poisson sequences whose product ties with exp(-mean) within 1e-12 are skipped and counted.",
             "§3 C18"),
 })
@@ -148,7 +148,7 @@ CLAIMED.update({
 CLAIMED.update({
     "C20": ("model_checking",
             "explicit enumeration of file states (every sequence of two / three exports of differently shaped tables to one path followed by an import) and of configurations: shapes x value patterns x header lengths x unit arrangements for the round trip, and the four build configurations g++/clang++ x -O0/-O2 of Natural_Units.cpp, each probed for every unit constant after start-up",
-            "The round trip is executed for every member of shapes {1,2,3,7,200}x{1,2,5,12} x 4 value patterns (integers, six-digit decimals over 600 decades, long fractions, dyadics) x {0,1,3} header lines x 3 unit arrangements over 60 decades (lists and both Export_Function overloads likewise): same shape, every value within half a unit of the sixth significant digit, six-digit decimals exactly. Whether a derived constant defined before its base constants has the right value is a property of the build configuration: Natural_Units.cpp is compiled in all four configurations on every run, a probe prints all 130 constants as hex floats, none may be 0/inf/NaN, 82 defining relations (Joule=kg m^2/s^2, Volt*Coulomb=Joule, Ohm=Volt/Ampere, Tesla, Hz, time and length multiples...) must hold within 8u in each build and the builds must agree within 2u.",
+            "The round trip is executed for every member of shapes {1,2,3,7,200}x{1,2,5,12} x 4 value patterns (integers, six-digit decimals over 600 decades, long fractions, dyadics) x {0,1,3} header lines (also headers with a blank line, a whitespace-only line, only a blank, numeric tokens) x 3 unit arrangements over 60 decades (lists and both Export_Function overloads likewise): same shape, every value within half a unit of the sixth significant digit, six-digit decimals exactly. Whether a derived constant defined before its base constants has the right value is a property of the build configuration: Natural_Units.cpp is compiled in all four configurations on every run, a probe prints all 130 constants as hex floats, none may be 0/inf/NaN, 82 defining relations (Joule=kg m^2/s^2, Volt*Coulomb=Joule, Ohm=Volt/Ampere, Tesla, Hz, time and length multiples...) must hold within 8u in each build and the builds must agree within 2u.",
             "Needs g++ and clang++ on PATH (both present in this image). Table configurations whose quotient value/unit leaves the normal double range are excluded and counted. Other compilers or flags (-ffast-math, LTO) are not covered.",
             "§3 C20"),
 })
